@@ -75,6 +75,7 @@ func (root *Root) AddTypes(types ...Type) (err error) {
 	root.types = origTypes.dup()
 	root.dirs = origDirs.dup()
 
+	origSchema := root.schema
 	err = root.addTypes(types...)
 	if err == nil {
 		err = root.validate()
@@ -82,6 +83,7 @@ func (root *Root) AddTypes(types ...Type) (err error) {
 	if err != nil {
 		root.types = origTypes
 		root.dirs = origDirs
+		root.schema = origSchema
 	}
 	return
 }
@@ -272,7 +274,7 @@ func (root *Root) addTypes(types ...Type) error {
 	return root.ReplaceRefs()
 }
 
-func (root *Root) addExtends(extends ...*Extend) (err error) {
+func (root *Root) addExtends(extends ...*Extend) (undo []func(), err error) {
 	for _, x := range extends {
 		if err = root.replaceTypeRefs(x.Adds); err != nil {
 			return
@@ -289,16 +291,19 @@ func (root *Root) addExtends(extends ...*Extend) (err error) {
 			cur = root.schema
 		}
 		if cur == nil {
-			return fmt.Errorf("%s can not be extended because it was %w", x.Adds.Name(), ErrNotFound)
+			return undo, fmt.Errorf("%s can not be extended because it was %w", x.Adds.Name(), ErrNotFound)
 		}
 		if reflect.TypeOf(x.Adds) != reflect.TypeOf(cur) {
-			return fmt.Errorf("%w: %s, a %T can not extend a %T", ErrTypeMismatch, x.Adds.Name(), x.Adds, cur)
+			return undo, fmt.Errorf("%w: %s, a %T can not extend a %T", ErrTypeMismatch, x.Adds.Name(), x.Adds, cur)
 		}
+		// Extend modifies the type in place, remember how to undo that in
+		// case the load fails later.
+		undo = append(undo, extendUndo(cur))
 		if err = cur.Extend(x.Adds); err != nil {
 			return
 		}
 	}
-	return nil
+	return undo, nil
 }
 
 // GetType returns the type that matches the provided name or nil if none
@@ -333,20 +338,29 @@ func (root *Root) ParseReader(r io.Reader) error {
 	root.types = origTypes.dup()
 	root.dirs = origDirs.dup()
 
+	origSchema := root.schema
+	var undo []func()
+
 	types, extends, err := parseSDL(root, r)
 	if err == nil {
 		err = root.addTypes(types...)
 	}
 	if err == nil {
-		err = root.addExtends(extends...)
+		undo, err = root.addExtends(extends...)
 	}
 	if err == nil {
 		root.assureSchema()
 		err = root.validate()
 	}
 	if err != nil {
+		// Leave the root as it was before the call. Take out the extensions
+		// made to types that were already loaded, latest first.
+		for i := len(undo) - 1; 0 <= i; i-- {
+			undo[i]()
+		}
 		root.types = origTypes
 		root.dirs = origDirs
+		root.schema = origSchema
 	}
 	return err
 }
